@@ -318,6 +318,19 @@ def execute_case(spec: dict, *, chooser: Optional[Chooser] = None, gated: bool =
                     continue
                 left.append(nid)
             obs.real_results_left = left
+        if verify_cache and backend_kind in ('fork', 'spawn') and obs.outcome == 'raise' and not obs.timeout:
+            # workers that were executing when run_tasks raised may still be finishing (allowed): judge the cache only once they have
+            # exited, not in the middle of their save
+            try:
+                ex_ = getattr(getattr(ctl.runner, 'real', None), 'executor', None)
+                for _, p_ in list(getattr(ex_, '_running_id_to_future_and_process', {}).values()):
+                    try:
+                        if p_.pid is not None:
+                            p_.join(30)
+                    except Exception:
+                        pass
+            except Exception:
+                pass
         # ---- post-state through the public API, from a fresh Lab on the same storage
         if not storage_null:
             lab2 = labtech.Lab(storage=storage, runner_backend='serial')
